@@ -295,7 +295,7 @@ public:
     {
         doRemoveEntries();
 
-        if (!m_buckets.empty())
+        if (!m_buckets.empty() && !m_freeEntries.empty())
         {
             EntryListIterator   toRemove = m_freeEntries.begin();
 
